@@ -5,6 +5,7 @@ import FinamModel.Translated.DelayToPush_with_delay
 import FinamModel.Translated.DelayToPull_with_delay
 import FinamModel.Translated.DelayToPull__pulled
 import FinamModel.Translated.TimeDelayAdapter_get_info
+import FinamModel.Translated.TimeDelayAdapter_get_data
 /-
   Equivalence of the *translated* delay-adapter functions (regenerated from `finam/adapters/time.py` by
   `harness/py2lean.py` on every run) with the hand-written model the C13 / C01 / C02 / C04 theorems are about.
@@ -173,5 +174,38 @@ theorem code_DelayToPull_request (n : Nat) (hn : 0 < n) (init add : Int) (h : Li
   have h2 := dpull_request [tableAfter n init h] 0 n hn add init t h (by simp)
   rw [h2] at h1
   exact ⟨_, h1⟩
+
+/-- **`TimeDelayAdapter.get_data`**: the source is asked exactly once, for `with_delay(time)` and on behalf of the
+    requesting end point; the *original* request time is what `_pulled` gets to remember; the answer is passed on -/
+theorem tr_TimeDelayAdapter_get_data {α} (reqs : List (Int × Nat)) (pulled : List Int) (t : Int) (target : Nat)
+    (wd : Int → Except Err Int) (ans : α) :
+    Tr.TimeDelayAdapter_get_data reqs pulled t target wd ans =
+      (match wd t with
+       | .error e => .error e
+       | .ok t' => .ok (ans, pulled ++ [t], reqs ++ [(t', target)])) := by
+  unfold Tr.TimeDelayAdapter_get_data Tr.TimeDelayAdapter_get_data.join1
+  cases wd t with
+  | error e => simp [bind, Except.bind]
+  | ok t' => simp [Py.recordReq, Py.recordPush, bind, Except.bind, pure, Except.pure]
+
+/-- **the time that reaches the source of a fixed-delay adapter, on the code**: a request for `t ≥ start` through the
+    translated `get_data` with the translated `DelayFixed.with_delay` asks the source for `max (t - delay) start` — the
+    time the driver checks (`tr_DelayFixed_with_delay` is also what the translated `_find_dependencies` is evaluated with) -/
+theorem code_DelayFixed_get_data {α} (reqs : List (Int × Nat)) (pulled : List Int) (d init t : Int) (target : Nat) (ans : α)
+    (hd : 0 ≤ d) (ht : init ≤ t) :
+    Tr.TimeDelayAdapter_get_data reqs pulled t target (Tr.DelayFixed_with_delay d init) ans =
+      .ok (ans, pulled ++ [t], reqs ++ [(max (t - d) init, target)]) := by
+  rw [tr_TimeDelayAdapter_get_data, code_DelayFixed_request d init t hd ht]
+
+/-- two consumers on one fixed-delay adapter: every request is shifted on its own — an earlier request after a later one
+    is forwarded as it is (the adapter does not remember what it forwarded before) -/
+theorem code_DelayFixed_requests_independent {α} (d init t1 t2 : Int) (a b : Nat) (ans : α)
+    (hd : 0 ≤ d) (h1 : init ≤ t1) (h2 : init ≤ t2) :
+    ∃ p r, Tr.TimeDelayAdapter_get_data [] [] t1 a (Tr.DelayFixed_with_delay d init) ans = .ok (ans, p, r) ∧
+      Tr.TimeDelayAdapter_get_data r p t2 b (Tr.DelayFixed_with_delay d init) ans =
+        .ok (ans, [t1, t2], [(max (t1 - d) init, a), (max (t2 - d) init, b)]) := by
+  refine ⟨_, _, code_DelayFixed_get_data [] [] d init t1 a ans hd h1, ?_⟩
+  rw [code_DelayFixed_get_data _ _ d init t2 b ans hd h2]
+  rfl
 
 end Finam.Props.C13
